@@ -143,6 +143,18 @@ SHAPES['prefix-names'] = [
     dict(task='x', name='use', kind='task', values=['v0'], inputs=[(2, None)], feedback=[]),
     dict(task='x', name='user', kind='task', values=['v0'], inputs=[(1, None)], feedback=[]),
 ]
+# two task packages whose algorithms carry the SAME name (as disk.engine / network.engine in the fixture)
+SHAPES['same-names'] = [
+    dict(task='network', name='engine', kind='task', values=['v0'], inputs=[], feedback=[]),
+    dict(task='disk', name='engine', kind='task', values=['v0'], inputs=[(0, None)], feedback=[]),
+    dict(task='review', name='engine', kind='task', values=['v0'], inputs=[(1, None)], feedback=[]),
+]
+# an algorithm that asks for the cloud although no cloud provider is configured (it must run on the cluster)
+SHAPES['cloud-minded'] = [
+    dict(task='t0', name='a0', kind='task', values=['v0'], inputs=[], feedback=[], where='cloud'),
+    dict(task='t1', name='a1', kind='task', values=['v0'], inputs=[(0, None)], feedback=[], where='auto'),
+    dict(task='t2', name='a2', kind='analysis', values=['v0'], inputs=[(1, None)], feedback=[], where='cloud'),
+]
 # 'short-long-b' lists algorithms out of dependency order on purpose: fix the indices
 SHAPES['short-long-b'] = [
     dict(task='t0', name='a0', kind='task', values=['v0'], inputs=[], feedback=[]),
@@ -198,6 +210,25 @@ def scenarios(algs):
                          ('disp',), ('pump', 'success', None)]))
     tasks_ = [i for i in range(n) if algs[i]['kind'] == 'task']
     chains = [(p_, x, y) for (p_, x) in edges for (x2, y) in edges if x2 == x][:4]
+    for i in tasks_:
+        # a database fault while the first target is handed over, then another target of the same algorithm
+        out.append(('dbfault-then-other-target',
+                    [('org', i, None, [1]), ('dbfail',), ('disp',), ('org', i, None, [2]), ('disp',), ('disp',),
+                     ('pump', 'success', None)]))
+    for p_, c in edges:
+        # the child fails on one target, its parent on the other, then the child reports invalid data for it
+        out.append(('child-and-parent-fail-on-different-targets',
+                    [('org', c, None, [1, 2]), ('disp',), ('org', p_, None, [2]), ('disp',),
+                     ('replyu', c, 1, 'failure'), ('replyu', p_, 2, 'failure'), ('replyu', c, 2, 'invalid'),
+                     ('pump', 'success', None)]))
+    for p_, x, y in chains:
+        # x executes target 1 and has target 2 pending (held by its parent); its child wants target 1
+        out.append(('executing-one-target-pending-another',
+                    [('org', x, None, [1]), ('disp',), ('org', p_, None, [2]), ('org', x, None, [2]), ('disp',),
+                     ('org', y, None, [1]), ('disp',), ('pump', 'success', None)]))
+    # a worker that registered with incarnation 0 loses its connection while idle; then work arrives
+    out.append(('dead-worker', [('workers', 1, 0), ('lose', 0), ('orgall', None, 'all'), ('disp',), ('disp',),
+                                ('pump', 'success', None)]))
     for p_, x, y in chains:
         # x executes; its parent is re-run; x is requested again; the parent fails; then the grandchild is asked for
         out.append(('child-rerequested-parent-fails-grandchild',
@@ -264,6 +295,8 @@ class Run:
         self.fault_tick = False
         self.tick_puts = []     # task messages farm._put queued during the current dispatch tick
         self.hands = []
+        self.lost_hands = []    # (hand, bytes written to it when its connection was lost)
+        self.owed = {}          # (consumer, unit) made pending by a new-value report and not yet released
         self.chron_fault = False
         self.waiter_threads = []
         F = env.F
@@ -392,6 +425,23 @@ class Run:
                              f'{sorted(b)} pending/executing')
         if len(set(self.tick_puts)) != len(self.tick_puts):
             self.hit('C03', 'double-release', f'two task messages for one unit in one tick: {sorted(self.tick_puts)}')
+        # ---- C03/C04: a task is never written to a connection that is already lost, and never parked for a cloud
+        # provider that does not exist
+        for k, (h, n0) in enumerate(self.lost_hands):
+            if len(h.transport.written) > n0:
+                self.lost_hands[k] = (h, len(h.transport.written))
+                for prop in ('C03', 'C04'):
+                    self.hit(prop, 'handed-to-dead-worker',
+                             'a task message was written to a worker whose connection had been lost: the unit can '
+                             'never be answered')
+        if env.F._cloud and not env.F._agency[0]:
+            parked = sorted((m.jobid, m.target or ALL) for m in env.F._cloud)
+            for prop in ('C03', 'C04'):
+                self.hit(prop, 'released-never-runs',
+                         f'task messages {parked} wait for a cloud provider although none is configured: they never '
+                         f'reach a worker')
+        for unit in released:
+            self.owed.pop(unit, None)
         # ---- C04: a pending unit whose upstream is idle (and which is not itself executing) is released
         if active:
             for tag in env.tags:
@@ -490,6 +540,8 @@ class Run:
                     self.hit('C05', 'history-wrong-entry', f'history entry {e} does not describe {tag}[{t}] {outcome}')
             if outcome == 'success' and n_chron == 1:
                 self.check_update(tag, t, news if nonempty else [], before, after)
+            if outcome != 'success':
+                self.owed_after_failure(tag, t)
             if outcome != 'success' and n_chron == 1:
                 self.check_failure(tag, t, before, after)
             if outcome != 'success' and n_chron != 1:
@@ -531,6 +583,8 @@ class Run:
                 else:
                     want = {t}
                 have = set(after['nodes'][ktag]['todo'])
+                for u in want & have:
+                    self.owed[(ktag, u)] = f'{tag}[{t}] reported {sorted(declared & newset)} new'
                 if not want <= have:
                     self.hit('C02', 'dependent-not-scheduled',
                              f'{tag}[{t}] reported {sorted(declared & newset)} new but consumer {ktag} was not scheduled for {sorted(want - have)}')
@@ -545,6 +599,13 @@ class Run:
         own = set(after['nodes'][tag]['todo']) - set(before['nodes'][tag]['todo'])
         if own and i not in fb_consumers:
             self.hit('C02', 'needless-rerun', f'{tag} rescheduled itself for {sorted(own)}')
+
+    def owed_after_failure(self, tag, t):
+        """a failure of (tag, t) legitimately withdraws t from everything below tag"""
+        i = self.idx[tag]
+        for (d, u) in list(self.owed):
+            if u == t and (self.idx[d] in self.down[i] or d == tag):
+                del self.owed[(d, u)]
 
     def check_failure(self, tag, t, before, after):
         """C05 for one failure / invalid report"""
@@ -582,6 +643,13 @@ class Run:
             if snap['que'] or vt or vd:
                 self.hit('C04', 'idle-not-idle',
                          f'nothing pending or executing but queue={snap["que"]} view_todo={vt} view_doing={vd}')
+        # ---- C02: a consumer made pending by a new-value report runs: its pending unit is not dropped on the way
+        for (d, u), why in list(self.owed.items()):
+            if u not in snap['nodes'][d]['todo'] and (d, u) not in self.inflight:
+                del self.owed[(d, u)]
+                self.hit('C02', 'scheduled-then-dropped',
+                         f'{d}[{u}] was made pending because {why}, and lost that pending unit without being run '
+                         f'and without a failure upstream of it for that target')
         # ---- C01/C04 support: every node with work is in the queue
         for x, n in snap['nodes'].items():
             if (n['todo'] or n['doing']) and x not in snap['que']:
@@ -825,8 +893,15 @@ def special_op(env, run, want, op):
         run.no_model = True
         for _k in range(op[1]):
             h = env.new_worker()
-            env.send_to_hand(h, env.M.make(typ=env.M.Type.register, inc=1, rev=env.dawgie.context.git_rev))
+            env.send_to_hand(h, env.M.make(typ=env.M.Type.register, inc=op[2] if len(op) > 2 else 1,
+                                            rev=env.dawgie.context.git_rev))
             run.hands.append(h)
+    elif kind == 'lose':
+        # the reactor reports the connection of that worker as lost
+        run.no_model = True
+        h = run.hands[op[1]]
+        h.connectionLost(None)
+        run.lost_hands.append((h, len(h.transport.written)))
     elif kind == 'chronfail':
         # the next history write fails (unwritable chronicle): monitors only
         run.no_model = True
@@ -865,7 +940,7 @@ def run_history(env, res, want, algs, ops, r, lines, pending, tag):
                     run.do_reply(x, t, 'success', run.vals_of(x))
                 else:
                     run.do_reply(x, t, op[3], [])
-        elif kind in ('waiters', 'joinwaiters', 'dbfail', 'workers', 'chronfail'):
+        elif kind in ('waiters', 'joinwaiters', 'dbfail', 'workers', 'chronfail', 'lose'):
             special_op(env, run, want, op)
         elif kind == 'disp':
             run.do_dispatch()
@@ -1091,7 +1166,7 @@ def replay_case(rep, res, want):
                 run.do_defer([tuple(p) for p in op[1]])
             elif op[0] == 'pause':
                 run.do_pause(op[1])
-            elif op[0] in ('waiters', 'joinwaiters', 'dbfail', 'workers', 'chronfail'):
+            elif op[0] in ('waiters', 'joinwaiters', 'dbfail', 'workers', 'chronfail', 'lose'):
                 special_op(env, run, want, op)
                 run.trace.pop()
         if run.waiter_threads:
